@@ -1561,24 +1561,34 @@ class ConfigList(UserList):
                                 ),
                             )
                         # blank_line_keep for Github Issue #229
-                        parent.children.append(obj)
+                        self._reparent_child(parent, obj)
                         parent.child_indent = 0
-                        obj.parent = parent
                         break
                     else:
                         # all non-banner-parent lines should hit this condition
                         if self.debug > 0:
                             logger.debug("found banner child {}".format(obj))
 
-                    parent.children.append(obj)
+                    self._reparent_child(parent, obj)
                     parent.child_indent = 0
-                    obj.parent = parent
                     obj.blank_line_keep = True
 
                 except IndexError:
                     break
 
         return None
+
+    # This method is on ConfigList()
+    @logger.catch(reraise=True)
+    def _reparent_child(self, parent: BaseCfgLine, child: BaseCfgLine) -> None:
+        """Make ``child`` a direct child of ``parent`` (exactly once, in line order) and detach it from any former parent."""
+        former = child.parent
+        if former is not child and former is not parent:
+            former.children[:] = [ii for ii in former.children if ii is not child]
+        child.parent = parent
+        if not any(ii is child for ii in parent.children):
+            parent.children.append(child)
+            parent.children.sort(key=lambda ii: ii.linenum)
 
     # This method is on ConfigList()
     @logger.catch(reraise=True)
@@ -1611,8 +1621,7 @@ class ConfigList(UserList):
                     break
                 # blank_line_keep for original ciscoconfpasre Github Issue #229
                 cobj.blank_line_keep = True
-                cobj.parent = pobj
-                pobj.children.append(cobj)
+                self._reparent_child(pobj, cobj)
                 # If we hit the end of the macro, break out of the loop
                 if cobj.text.rstrip() == "@":
                     finished = True
